@@ -20,7 +20,11 @@ LEVEL_TEXT = ('Exploration: the product tag form x target name x node kind x con
               'is loaded through the six safe/base loader classes and the two safe_* functions while sys.monitoring CALL events '
               'of all yaml code, audit events (import/exec/compile/os.system/Popen/open), sys.modules, canary counters and a '
               'digest of the package state are watched; the result graph is walked for foreign types; the effective constructor '
-              'tables of the safe classes are compared with the closed YAML 1.1 repertoire.')
+              'tables of the safe classes are compared with the closed YAML 1.1 repertoire. A second worker first registers constructors, '
+              'multi-constructors, resolvers and YAMLObject classes the way applications do (module-level helpers with and without '
+              'Loader=, class methods on the non-safe loaders and on subclasses of the safe ones) and demands that none of it reaches a '
+              'safe loader. Hostile targets include iterator objects, computed class attributes, unimported submodules of imported '
+              'packages and unimported parent packages.')
 LEVEL_NOTE = ('Held on the documents generated. The monitors see calls made from yaml code objects and audit events; a call made '
               'from inside C code without an audit event would only show through the canaries and sys.modules.')
 TECHNIQUE = 'runtime monitoring: sys.monitoring CALL events + audit hook + state digest + result-type walk over a tag/context product'
